@@ -15,7 +15,7 @@ import struct
 import traceback
 
 from pvm import simnet
-from pvm.ref import ofwire, frames as F
+from pvm.ref import ofwire, frames as F, ofmatch as OM
 
 ID = "C11"
 LEVEL = "exploration"
@@ -36,7 +36,8 @@ ASSUMPTIONS = ["clause 'exactly the most recent port' is judged only when "
 REQUIRED = ["frames", "arrivals_judged", "floods", "known_dst_forwards",
             "exact_port_checks", "cached_flow_hits", "filtered_frames",
             "host_moves", "buffers_released", "timeouts_crossed",
-            "unbuffered_packet_ins", "bursts", "frames_to_own_source"]
+            "unbuffered_packet_ins", "bursts", "frames_to_own_source",
+            "cached_flow_deliveries_checked", "group_addresses_next_to_the_filtered_range"]
 TIMEOUT = {"quick": 1200, "thorough": 9000}
 
 HOSTS = [bytes.fromhex("0200000000%02x" % (0xa0 + i)) for i in range(5)]
@@ -64,7 +65,7 @@ class Net (object):
       sp = simnet.SwitchPeer(w, dpid_base + i, s, ports=4, expire=True,
                              max_buffers=pool)
       tap = dict(pins=[], outstanding={}, to_sw=b"", to_ctl=b"",
-                 pin_count=0, released=0)
+                 pin_count=0, released=0, flows=[])
       self.taps.append(tap)
       # tap both directions of the OpenFlow channel
       s.on_send = (lambda sock, data, tap=tap: self._sw_wrote(tap, data))
@@ -99,6 +100,19 @@ class Net (object):
       l = struct.unpack_from("!H", tap["to_sw"], 2)[0]
       if l < 8 or len(tap["to_sw"]) < l: break
       m, _ = ofwire.dec_message(tap["to_sw"][:l]); tap["to_sw"] = tap["to_sw"][l:]
+      if m["name"] == "flow_mod" and m["command"] == 0:
+        # the monitor's own picture of what the controller installed (from
+        # the bytes on the wire): who the flow is for, where it sends, and
+        # how long it may stand in for the controller
+        mt = m["match"]
+        tap["flows"].append(dict(
+          in_port=None if mt["wildcards"] & 1 else mt["in_port"],
+          src=None if mt["wildcards"] & 4 else bytes(mt["dl_src"]),
+          dst=None if mt["wildcards"] & 8 else bytes(mt["dl_dst"]),
+          dl_type=None if mt["wildcards"] & 16 else mt["dl_type"],
+          out=[a["port"] for a in m["actions"] if a["type"] == 0],
+          idle=m["idle_timeout"], hard=m["hard_timeout"],
+          t0=self.w.clock.now, used=self.w.clock.now))
       if m["name"] in ("packet_out", "flow_mod") and \
          m["buffer_id"] != 0xffffffff:
         if tap["outstanding"].pop(m["buffer_id"], None) is not None:
@@ -122,7 +136,7 @@ class Net (object):
     Several frames arrive at switch i before the controller has answered any
     of them (several packet-ins and buffers outstanding at once).
     """
-    recs = [dict(sw=i, port=p, raw=r, out=[]) for p, r in frames]
+    recs = [dict(sw=i, port=p, raw=r, out=[], burst=True) for p, r in frames]
     self.burst = {bytes(r["raw"]): r for r in recs}
     self.burst_strays = []
     pins0 = len(self.taps[i]["pins"])
@@ -173,6 +187,21 @@ def frame_for (src, dst, variant, size, uid):
                  F.udp(7, 9, payload, src=0x0a000001, dst=0x0a000002)))
   if variant == "vlan":
     return F.eth(dst, src, 0x88b5, payload, vlan=(3, 0, 10))
+  if variant == "arp":
+    return F.eth(dst, src, 0x0806, F.arp(1 + uid % 2, src, 0x0a000001 + (uid % 3), b"\0" * 6,
+                                         0x0a000002) + payload[:18], pad=False)
+  if variant == "tcp":
+    return F.eth(dst, src, 0x0800, F.ipv4(0x0a000001 + uid % 2, 0x0a000002, 6,
+                 F.tcp(1000 + uid % 3, 80, payload, src=0x0a000001 + uid % 2, dst=0x0a000002)))
+  if variant == "icmp":
+    return F.eth(dst, src, 0x0800, F.ipv4(0x0a000001, 0x0a000002 + uid % 2, 1,
+                 F.icmp(8, 0, payload=payload)))
+  if variant == "llc":
+    return F.eth_8023(dst, src, F.llc(0x42, 0x42, 3, payload))
+  if variant == "vlan_ip":
+    return F.eth(dst, src, 0x0800, F.ipv4(0x0a000001, 0x0a000002, 17,
+                 F.udp(7 + uid % 2, 9, payload, src=0x0a000001, dst=0x0a000002)),
+                 vlan=(uid % 8, 0, 100 + uid % 2))
   return F.eth(dst, src, 0x88b5, payload)
 
 
@@ -213,6 +242,45 @@ def run_case (case, rep):
     etype = struct.unpack_from("!H", fr, 12)[0]
     if not rec["to_controller"]:
       rep.count("cached_flow_hits"); nt = True
+      # which installed flow stands in for the controller?  (the table sweep
+      # runs every 2 s: a flow may outlive its timeout by that much)
+      now = w.clock.now
+      SLACK = 2.0 + 1e-6
+      live = []; stale = []
+      for f in net.taps[i]["flows"]:
+        if f["in_port"] not in (None, port): continue
+        if f["src"] not in (None, s_src) or f["dst"] not in (None, s_dst): continue
+        if f["dl_type"] not in (None, OM.extract(fr, port)["dl_type"]): continue
+        dead = (f["hard"] and now > f["t0"] + f["hard"] + SLACK) or \
+               (f["idle"] and now > f["used"] + f["idle"] + SLACK)
+        (stale if dead else live).append(f)
+      if not live and not rec.get("burst"):
+        if stale:
+          fire("a flow outlived its timeout (frame served from the table "
+               "instead of reaching the controller)",
+               "switch %d in %d dst %s at +%.1f s: installed at +%.1f, idle %d "
+               "hard %d, last used +%.1f" %
+               (i, port, s_dst.hex(), now, stale[-1]["t0"], stale[-1]["idle"],
+                stale[-1]["hard"], stale[-1]["used"]))
+        else:
+          fire("frame neither sent to the controller nor covered by a flow "
+               "the controller installed",
+               "switch %d in %d src %s dst %s out %r" %
+               (i, port, s_src.hex(), s_dst.hex(), ports))
+        return False
+      if live:
+        for f in live: f["used"] = now
+        rep.count("cached_flow_deliveries_checked")
+        wants = []
+        for f in live:
+          wnt = sorted(set(p for p in f["out"] if p != port and p in PORTS))
+          if wnt not in wants: wants.append(wnt)
+        if sorted(ports) not in wants:
+          fire("frame served by an installed flow was not delivered as that "
+               "flow says",
+               "switch %d in %d dst %s out %r, the flow(s) say %r" %
+               (i, port, s_dst.hex(), sorted(ports), wants))
+          return False
     # clause 1
     if port in ports:
       fire("frame sent back out its ingress port",
@@ -299,7 +367,14 @@ def run_case (case, rep):
         host_at[h] = (at_sw, at_port)
         if dst_kind == "bcast": dst = BCAST
         elif dst_kind == "mcast": dst = MCAST
-        elif dst_kind == "stp": dst = STP
+        elif dst_kind == "stp":
+          # any of the sixteen addresses a bridge does not forward
+          dst = STP[:5] + bytes([uid % 16])
+        elif dst_kind == "near_stp":
+          # ... and their neighbours, which are ordinary group addresses
+          dst = [bytes.fromhex("0180c2000010"), bytes.fromhex("0180c2000100"),
+                 bytes.fromhex("0180c3000000")][uid % 3]
+          rep.count("group_addresses_next_to_the_filtered_range")
         elif dst_kind == "lldpdst": dst = LLDP_DST
         elif dst_kind == "self": dst = src        # loopback / keepalive frames
         else: dst = HOSTS[dst_kind]
@@ -410,7 +485,7 @@ def gen_exhaustive (n, shard, nshards, nsw):
 def gen_random (rng, count, maxlen):
   for _ in range(count):
     nsw = rng.choice([1, 2, 2, 3])
-    pool = rng.choice([0, 1, 1, 100])
+    pool = rng.choice([0, 1, 1, 100, 2, 3])
     nh = rng.randrange(2, 6)
     att = {h: (rng.randrange(nsw), rng.choice([3, 4])) for h in range(nh)}
     ops = []
@@ -423,10 +498,12 @@ def gen_random (rng, count, maxlen):
       elif r < 0.62: d = "self"
       elif r < 0.77: d = "bcast"
       elif r < 0.85: d = "mcast"
-      elif r < 0.92: d = "stp"
+      elif r < 0.90: d = "stp"
+      elif r < 0.94: d = "near_stp"
       else: d = "lldpdst"
-      variant = rng.choice(["plain", "plain", "ip", "vlan", "lldp", "groupsrc"]
-                           if rng.random() < 0.25 else ["plain"])
+      variant = rng.choice(["plain", "plain", "ip", "vlan", "lldp", "groupsrc",
+                            "arp", "tcp", "icmp", "llc", "vlan_ip"]
+                           if rng.random() < 0.35 else ["plain"])
       size = rng.choice([42, 50, 100, 124, 200, 1400])
       gap = rng.choice([0, 0, 0, 0, 5, 11, 31])
       if ops and rng.random() < 0.2 and ops[-1][1] == att[h][0]:
